@@ -198,5 +198,8 @@ func checkC10(ctx *Ctx) *Result {
 	sort.Strings(vs)
 	r.sample(map[string]any{"ordered_pairs": pairs, "pairs_compared_for_equality": compared, "distinct_vary_sets": vs, "paths_after_CI_pruning": len(infos)})
 	r.CallSites = compared
+	// "the same middleware-contributed headers": no value the middleware puts
+	// in a response that reaches a handler is memory another response shares
+	r.share(checkC12(ctx), map[string]string{"R12.4": "slices shared between requests (package-level or held by the configuration) reach a response header map only on handler-free paths: a wrapped handler cannot change what a later, cache-equivalent request is answered"}, nil)
 	return r
 }
